@@ -271,3 +271,124 @@ pub fn rank_order(rules: &[RuleAst]) -> Vec<usize> {
     idx.sort_by_key(|&i| (std::cmp::Reverse(rules[i].attrs.salience.unwrap_or(0)), i));
     idx
 }
+
+// ------------------------------------------------------------------------------------------
+// A session: one engine and one fact store, several calls (C03 histories).
+
+pub struct FwdSession {
+    engine: RustRuleEngine,
+    facts: rust_rule_engine::Facts,
+    n: usize,
+    max_cycles: usize,
+}
+
+impl FwdSession {
+    /// Every rule gets `Trace("<name>")` appended as its last action; the handler is registered
+    /// once. Custom actions other than `Trace` stay unregistered: a rule calling one makes the
+    /// call return `Err` (used to exercise error paths).
+    pub fn new(rules: &[RuleAst], store: &Store, max_cycles: usize, disabled: &[String]) -> Result<FwdSession, String> {
+        let traced: Vec<RuleAst> = rules
+            .iter()
+            .map(|r| {
+                let mut r = r.clone();
+                r.actions.push(Action::Call("Trace".into(), vec![Rhs::Lit(super::val::V::Str(r.name.clone()))]));
+                r
+            })
+            .collect();
+        let text = fmt_rules(&traced);
+        let parsed = match pan::catch_frames(|| GRLParser::parse_rules(&text)) {
+            Ok(Ok(r)) => r,
+            Ok(Err(e)) => return Err(format!("{}", e)),
+            Err(p) => return Err(format!("panic: {}", p.msg)),
+        };
+        if parsed.len() != rules.len() {
+            return Err(format!("parsed {} rules, wrote {}", parsed.len(), rules.len()));
+        }
+        let kb = KnowledgeBase::new("verif");
+        for r in parsed {
+            kb.add_rule(r).map_err(|e| format!("add_rule: {}", e))?;
+        }
+        for d in disabled {
+            let _ = kb.set_rule_enabled(d, false);
+        }
+        let cfg = EngineConfig { max_cycles, timeout: None, enable_stats: false, debug_mode: false };
+        let mut engine = RustRuleEngine::with_config(kb, cfg);
+        engine.register_action_handler("Trace", move |params, f| {
+            let name = match params.get("0") {
+                Some(rust_rule_engine::Value::String(s)) => s.clone(),
+                other => format!("{:?}", other),
+            };
+            let after = Store::from_engine_map(&f.get_all_facts());
+            let p = PASSES.with(|p| p.get());
+            TRACE_SINK.with(|t| t.borrow_mut().push((format!("{}\u{1f}{}", p, name), after)));
+            Ok(())
+        });
+        Ok(FwdSession { engine, facts: store.to_facts(), n: rules.len(), max_cycles })
+    }
+
+    pub fn current_store(&self) -> Result<Store, String> {
+        Store::from_engine_map(&self.facts.get_all_facts())
+    }
+
+    /// One call on the shared engine and facts.
+    pub fn run(&mut self, entry: Entry) -> Run {
+        let mut run = Run {
+            parse_error: None,
+            parsed_rules: self.n,
+            firings: Vec::new(),
+            passes: 0,
+            end: RunEnd::Err("not run".into()),
+            final_store: Ok(Store::new()),
+        };
+        let _ = verif_hooks::take_events();
+        TRACE_SINK.with(|t| t.borrow_mut().clear());
+        PASSES.with(|p| p.set(0));
+        RUNAWAY.with(|r| r.set(""));
+        let pass_bound = self.max_cycles + 1;
+        let fire_bound = self.max_cycles.saturating_mul(self.n.max(1)) + 1;
+        verif_hooks::set_event_observer(Some(Box::new(move |ev| {
+            let Event::ForwardPass { .. } = ev;
+            let p = PASSES.with(|p| {
+                p.set(p.get() + 1);
+                p.get()
+            });
+            let fired = TRACE_SINK.with(|t| t.borrow().len());
+            if p > pass_bound {
+                RUNAWAY.with(|r| r.set("more passes than max_cycles + 1"));
+                std::panic::panic_any(RunawayMarker);
+            }
+            if fired > fire_bound {
+                RUNAWAY.with(|r| r.set("more firings than max_cycles x #rules"));
+                std::panic::panic_any(RunawayMarker);
+            }
+        })));
+        let engine = &mut self.engine;
+        let facts = &self.facts;
+        let res = match entry {
+            Entry::WithCallback => pan::catch_frames(|| engine.execute_with_callback(facts, |_n, _f| {})),
+            Entry::Execute => pan::catch_frames(|| engine.execute(facts)),
+        };
+        verif_hooks::set_event_observer(None);
+        let _ = verif_hooks::take_events();
+        for (tag, after) in TRACE_SINK.with(|t| std::mem::take(&mut *t.borrow_mut())) {
+            let (p, name) = tag.split_once('\u{1f}').unwrap_or(("0", tag.as_str()));
+            let p: usize = p.parse().unwrap_or(0);
+            run.firings.push(Firing { rule: name.to_string(), pass: if p > 0 { Some(p - 1) } else { None }, after });
+        }
+        run.passes = PASSES.with(|p| p.get());
+        let runaway = RUNAWAY.with(|r| r.get());
+        run.end = match res {
+            Ok(Ok(r)) => RunEnd::Ok { cycle_count: r.cycle_count, rules_fired: r.rules_fired, rules_evaluated: r.rules_evaluated },
+            Ok(Err(e)) => RunEnd::Err(format!("{}", e)),
+            Err(p) => {
+                if !runaway.is_empty() {
+                    RunEnd::Runaway(runaway)
+                } else {
+                    RunEnd::Panic(p)
+                }
+            }
+        };
+        run.final_store = self.current_store();
+        run
+    }
+}
